@@ -37,6 +37,20 @@ func TestVerifHostTable(t *testing.T) {
 			}
 		}
 	}
+	// wide matrices: 4 and 5 keys with values {x, y}
+	xy := []string{"x", "y"}
+	for _, a := range xy {
+		for _, b := range xy {
+			for _, c := range xy {
+				for _, d := range xy {
+					args = append(args, "m:a="+a+",b="+b+",c="+c+",d="+d)
+					for _, e := range xy {
+						args = append(args, "m:a="+a+",b="+b+",c="+c+",d="+d+",e="+e)
+					}
+				}
+			}
+		}
+	}
 	args = append(args, "e:")
 	for _, a := range args {
 		h, err := verifOrig_HashIndex(verifDecodeIndex(a))
